@@ -236,7 +236,29 @@ func (p c01) Run(c *fw.Ctx, idx int) fw.Result {
 							g2 = "<no data>"
 						}
 						if w2 != g2 || (len(got2.Errors) > 0) != (len(werrs2) > 0) {
-							res.Violate("data-mismatch-after-flip", "the same operation with its Boolean variables flipped, executed on the same gateway, differs from the monolithic reference", withFact(match, "history", "same-text-other-booleans"), full(map[string]any{"flipped_variables": string(fv), "expected": truncate(w2, 3000), "observed": truncate(g2, 3000), "first_difference": firstDiff(w2, g2)}))
+							// history or input? the same text and flipped variables on a FRESH gateway: when that differs from
+							// the reference in the same way, the flipped assignment is simply another input that violates the
+							// statement (kind data-mismatch, judged like any other input); only a difference that needs the
+							// earlier plan is reported as history-dependent
+							reproduced := false
+							if gwf, errf := fed.NewGateway(l, superGql, u, fed.GatewayOptions{}); errf == nil {
+								got3, p3 := safeExecute(gwf, text, fv)
+								gwf.Close()
+								if p3 == nil && got3.Err == nil {
+									g3 := ref.Canon(got3.Data)
+									if !got3.HasData {
+										g3 = "<no data>"
+									}
+									if g3 == g2 && (len(got3.Errors) > 0) == (len(got2.Errors) > 0) {
+										res.Count("flipped_boolean_mismatches_reproduced_on_fresh_gateway", 1)
+										res.Violate("data-mismatch", "gateway data differs from the monolithic reference (operation of this case with its Boolean variables flipped; same result on a fresh gateway)", match, full(map[string]any{"flipped_variables": string(fv), "expected": truncate(w2, 3000), "observed": truncate(g2, 3000), "first_difference": firstDiff(w2, g2)}))
+										reproduced = true
+									}
+								}
+							}
+							if !reproduced {
+								res.Violate("data-mismatch-after-flip", "the same operation with its Boolean variables flipped, executed on the same gateway, differs from the monolithic reference (and not so on a fresh gateway)", withFact(match, "history", "same-text-other-booleans"), full(map[string]any{"flipped_variables": string(fv), "expected": truncate(w2, 3000), "observed": truncate(g2, 3000), "first_difference": firstDiff(w2, g2)}))
+							}
 						}
 					}
 				}
